@@ -1209,6 +1209,12 @@ Proof.
   destruct m as [|a m]; [congruence|]. rewrite dropN_app_exact. reflexivity.
 Qed.
 
+Lemma skip_delimiter_1 relaxed : skip_delimiter relaxed (N.succ 0) = true.
+Proof. destruct relaxed; reflexivity. Qed.
+
+Lemma classify_bad s b : classify (false, set_stage s SDone, b) = Bad (r_code s, fields_of (set_stage s SDone)).
+Proof. reflexivity. Qed.
+
 Theorem overlong_line_414 relaxed limit m c u tail :
   req_max_method + 2 <= limit ->
   m <> [] -> forallb cs_TCHAR m = true -> lenN m <= req_max_method ->
@@ -1254,6 +1260,5 @@ Proof.
     destruct (cs_TCHAR 32) eqn:K; [|reflexivity]. apply tchar_facts in K. lia. }
   rewrite Hpre.
   rewrite tok_skipAll_spec. cbn [span]. rewrite delim_sp, Hc. cbn [fst snd lenN].
-  cbn [skip_delimiter]. unfold skip_delimiter. cbn.
-  unfold classify. cbn. eexists. reflexivity.
+  rewrite skip_delimiter_1. rewrite classify_bad. cbn [r_code set_code]. eexists. reflexivity.
 Qed.
